@@ -1718,7 +1718,7 @@ class Data(Container, NetCDFHDF5, Files, core.Data):
 
         out = []
         out.append(
-            f"{name}{namespace}{self.__class__.__name__}({array}{units}"
+            f"{name}{namespace}{self.__class__.__name__}({array!r}{units}"
             f"{calendar}, dtype={dtype!r}{mask}{fill_value})"
         )
 
